@@ -76,7 +76,19 @@ def rule_full_data(ctx):
     # R2 contiguity
     exts = Q.calls(b, ["extend_from_slice", "::extend", "::append"])
     if not exts:
-        ctx.cannot("R2", "get_full_data:concat", "concatenation step not found", ctx.loc(b))
+        # the same concatenation as an iterator chain: segments.iter().flat_map(|s| s.data..).collect()  /  .concat()
+        from ..engine import lists as L
+        lb = L.list_build(P, b)
+        chain_ok = lb is not None and lb.form == "chain" and any(n.endswith(("::flat_map", "::flatten")) for n in lb.iterators) and \
+            any(x[0] == "field" and x[2] == "data" for (_, _, v) in lb.elements for x in T.walk(v))
+        if not chain_ok:
+            ctx.cannot("R2", "get_full_data:concat", "concatenation step not found", ctx.loc(b))
+        else:
+            guard = any(c[0] == "cmp" and any(x[0] == "field" and x[2] == "sequence" for y in (c[2], c[3]) for x in T.walk(y)) for (_, cs) in lb.filters for c in cs)
+            ctx.check(guard, "R2", "get_full_data:contiguity",
+                      "each appended segment is compared with the expected next sequence number",
+                      "stored segments are concatenated without checking that each one starts where the previous one ended: after out-of-order arrival with a "
+                      "missing segment a head is assembled from non-contiguous bytes", ctx.loc(b))
     for blk, t in exts:
         conds = Q.canon_conds(P, T.dom_conds(b, S, blk))
         guard = any(c[0] == "cmp" and any(x[0] == "field" and x[2] == "sequence" for x in T.walk(c[2]) ) or
